@@ -1,0 +1,78 @@
+//go:build verif
+
+package election
+
+// Machine-checked contracts for /verif (read as text by the VC generator; no code).
+//
+//@ funcfield Election.observe
+//@   pure
+//@ funcfield Election.getFrameRoots
+//@   pure
+//@
+//@ inv Election elinv(el): el != nil && el.validators != nil && el.observe != nil && el.getFrameRoots != nil && el.votes != nil && el.decidedRoots != nil && valid(el.validators)
+//@
+//@ // validator v is decided 'no'
+//@ spec decidedNo(el *Election, v idx.ValidatorID) bool = has(el.decidedRoots, v) && !el.decidedRoots[v].yes
+//@
+//@ // The Atropos is the root voted for by the first validator, in canonical order, that is decided yes
+//@ // while all validators before it are decided no.
+//@ func (*Election).chooseAtropos
+//@   requires el != nil && el.validators != nil
+//@   ensures  [atropos] result0 != nil ==> result1 == nil && fresh(result0) && result0.Frame == el.frameToDecide && exists(i, 0, len(el.validators.cache.ids), has(el.decidedRoots, el.validators.cache.ids[i]) && el.decidedRoots[el.validators.cache.ids[i]].yes && result0.Atropos == el.decidedRoots[el.validators.cache.ids[i]].observedRoot && forall(j, 0, i, decidedNo(el, el.validators.cache.ids[j])))
+//@   ensures  [undecided] result0 == nil && result1 == nil ==> exists(i, 0, len(el.validators.cache.ids), !has(el.decidedRoots, el.validators.cache.ids[i]) && forall(j, 0, i, decidedNo(el, el.validators.cache.ids[j])))
+//@   ensures  [allno] result1 != nil ==> result0 == nil && forall(j, 0, len(el.validators.cache.ids), decidedNo(el, el.validators.cache.ids[j]))
+//@   loop 1 invariant 0 <= _k && _k <= len(_range) && forall(j, 0, _k, decidedNo(el, _range[j]))
+//@
+//@ func (*Election).Reset
+//@   requires el != nil
+//@   modifies el.validators, el.frameToDecide, el.votes, el.decidedRoots
+//@   ensures  el.validators == validators && el.frameToDecide == frameToDecide && fresh(el.votes) && fresh(el.decidedRoots) && len(el.votes) == 0 && len(el.decidedRoots) == 0
+//@   ensures  forall(v idx.ValidatorID, !has(el.decidedRoots, v))
+//@
+//@ // seenL(el, root, fr, n, r): r is one of the first n roots of fr and is forkless-caused ("observed") by root
+//@ spec seenL(el *Election, root hash.Event, fr []RootAndSlot, n int, r RootAndSlot) bool = n > 0 && ((fr[n-1] == r && el.observe(root, fr[n-1].ID)) || seenL(el, root, fr, n-1, r))
+//@ spec inRL(l []RootAndSlot, n int, r RootAndSlot) bool = n > 0 && (l[n-1] == r || inRL(l, n-1, r))
+//@
+//@ lemma inRL_ext(a []RootAndSlot, b []RootAndSlot, n int) by induction(n)
+//@   requires forall(j, 0, n, a[j] == b[j])
+//@   ensures  forall(r RootAndSlot, inRL(a, n, r) == inRL(b, n, r))
+//@ func (*Election).observedRoots
+//@   requires elinv(el)
+//@   ensures  fresh(result) && len(result) <= len(el.getFrameRoots(frame))
+//@   ensures  forall(r RootAndSlot, inRL(result, len(result), r) == seenL(el, root, el.getFrameRoots(frame), len(el.getFrameRoots(frame)), r))
+//@   loop 1 modifies observedRoots[*]
+//@   loop 1 invariant arrof(observedRoots) == arrof(atentry(observedRoots)) || arrof(observedRoots) >= _loopalloc
+//@   loop 1 invariant 0 <= _k && _k <= len(_range) && len(observedRoots) <= _k && arrof(observedRoots) >= old(_alloc) && arrof(_range) < old(_alloc)
+//@   loop 1 invariant forall(r RootAndSlot, inRL(observedRoots, len(observedRoots), r) == seenL(el, root, _range, _k, r))
+//@   loop 1 hint assert len(observedRoots) >= len(iterold(observedRoots)) && forall(j, 0, len(iterold(observedRoots)), observedRoots[j] == iterold(observedRoots)[j])
+//@   loop 1 hint use inRL_ext(observedRoots, iterold(observedRoots), len(iterold(observedRoots)))
+//@   loop 1 hint assert forall(r RootAndSlot, seenL(el, root, _range, _k - 1, r) == iterold(seenL(el, root, _range, _k, r)))
+//@   loop 1 hint assert len(observedRoots) == len(iterold(observedRoots)) || (len(observedRoots) == len(iterold(observedRoots)) + 1 && observedRoots[len(observedRoots)-1] == _range[_k-1] && el.observe(root, _range[_k-1].ID))
+//@
+//@ // first-round votes: a validator is in the map exactly when one of its roots in the frame is observed
+//@ spec seenV(el *Election, root hash.Event, fr []RootAndSlot, n int, v idx.ValidatorID) bool = n > 0 && ((fr[n-1].Slot.Validator == v && el.observe(root, fr[n-1].ID)) || seenV(el, root, fr, n-1, v))
+//@ func (*Election).observedRootsMap
+//@   requires elinv(el)
+//@   ensures  fresh(result) && forall(v idx.ValidatorID, has(result, v) == seenV(el, root, el.getFrameRoots(frame), len(el.getFrameRoots(frame)), v))
+//@   ensures  forall(v idx.ValidatorID, has(result, v) ==> result[v].Slot.Validator == v && seenL(el, root, el.getFrameRoots(frame), len(el.getFrameRoots(frame)), result[v]))
+//@   loop 1 modifies observedRootsMap[*]
+//@   loop 1 invariant 0 <= _k && _k <= len(_range) && observedRootsMap != nil
+//@   loop 1 invariant forall(v idx.ValidatorID, has(observedRootsMap, v) == seenV(el, root, _range, _k, v))
+//@   loop 1 invariant forall(v idx.ValidatorID, has(observedRootsMap, v) ==> observedRootsMap[v].Slot.Validator == v && seenL(el, root, _range, _k, observedRootsMap[v]))
+//@
+//@ spec inVL(l []idx.ValidatorID, n int, v idx.ValidatorID) bool = n > 0 && (l[n-1] == v || inVL(l, n-1, v))
+//@ lemma inVL_ext(a []idx.ValidatorID, b []idx.ValidatorID, n int) by induction(n)
+//@   requires forall(j, 0, n, a[j] == b[j])
+//@   ensures  forall(v idx.ValidatorID, inVL(a, n, v) == inVL(b, n, v))
+//@ func (*Election).notDecidedRoots
+//@   maypanic
+//@   requires elinv(el)
+//@   ensures  fresh(result) && forall(v idx.ValidatorID, inVL(result, len(result), v) == (inVL(el.validators.cache.ids, len(el.validators.cache.ids), v) && !has(el.decidedRoots, v)))
+//@   loop 1 modifies notDecidedRoots[*]
+//@   loop 1 invariant arrof(notDecidedRoots) == arrof(atentry(notDecidedRoots)) || arrof(notDecidedRoots) >= _loopalloc
+//@   loop 1 invariant 0 <= _k && _k <= len(_range) && len(notDecidedRoots) <= _k && arrof(notDecidedRoots) >= old(_alloc) && _range == old(el.validators.cache.ids) && old(arrof(el.validators.cache.ids)) < old(_alloc)
+//@   loop 1 invariant forall(v idx.ValidatorID, inVL(notDecidedRoots, len(notDecidedRoots), v) == (inVL(_range, _k, v) && !has(el.decidedRoots, v)))
+//@   loop 1 hint assert len(notDecidedRoots) >= len(iterold(notDecidedRoots)) && forall(j, 0, len(iterold(notDecidedRoots)), notDecidedRoots[j] == iterold(notDecidedRoots)[j])
+//@   loop 1 hint use inVL_ext(notDecidedRoots, iterold(notDecidedRoots), len(iterold(notDecidedRoots)))
+//@   loop 1 hint assert forall(v idx.ValidatorID, inVL(_range, _k - 1, v) == iterold(inVL(_range, _k, v)))
+//@   loop 1 hint assert len(notDecidedRoots) == len(iterold(notDecidedRoots)) || (len(notDecidedRoots) == len(iterold(notDecidedRoots)) + 1 && notDecidedRoots[len(notDecidedRoots)-1] == _range[_k-1] && !has(el.decidedRoots, _range[_k-1]))
